@@ -37,6 +37,7 @@ type thread struct {
 	// sees them quiescent, and choosing between them is an unbounded chain of free choices.
 	spinMode  bool
 	sinceSpin int
+	progress  bool // accepted a connection since the last back edge of a condition-less loop (NoteProgress)
 	spinSeen  int // back edges of condition-less loops taken since the thread last blocked (see Sched.SpinFree)
 	lastRun   int
 	settling bool // parked in Settle (counts as quiescent for other settlers)
@@ -390,6 +391,13 @@ func Tick(spin bool) {
 		panic(abortT{})
 	}
 	if spin {
+		if s.cur.progress {
+			// an accept loop that has just been handed a connection is not polling: it goes
+			// round again like any other thread (and may be handed the next connection before
+			// the goroutine it spawned for the first one has run)
+			s.cur.progress = false
+			return
+		}
 		if s.SpinFree > 0 {
 			s.cur.spinSeen++
 			if s.cur.spinSeen <= s.SpinFree {
@@ -400,6 +408,13 @@ func Tick(spin bool) {
 		s.cur.spinMode = true
 		s.cur.sinceSpin = 0
 		s.yield("spin", nil)
+	}
+}
+
+// NoteProgress is called by the scripted listener when Accept hands out a connection.
+func NoteProgress() {
+	if s := cur.Load(); s != nil && s.cur != nil {
+		s.cur.progress = true
 	}
 }
 
